@@ -81,6 +81,7 @@ impl Monitor for C14 {
             defaults,
             flags: path.carries_flags(),
             max_paths: Some(tier.pick(200, 1500)),
+            dangling_replacement: true,
             ..GenCfg::default()
         };
         let mut facts = crate::gen::gen_facts(&mut rng, &cfg);
